@@ -38,7 +38,12 @@ def generate(ctx):
         inv = tr_sites_gen.inventory(root)
     except (FileNotFoundError, ValueError) as e:
         raise vlib.TranslatorError(f"site inventory: {e}") from e
-    ctx.gen("GenSites.v", tr_sites_gen.render(inv))
+    try:
+        inv_all = tr_sites_gen.inventory_all(root)
+    except (FileNotFoundError, ValueError) as e:
+        raise vlib.TranslatorError(f"whole-package site inventory: {e}") from e
+    ctx.gen("GenSites.v", tr_sites_gen.render(inv, inv_all))
+    inv.all_set_sites = inv_all.set_sites
     return inv
 
 
@@ -168,7 +173,7 @@ def run_config(ctx, progs, cfg):
     return json.loads(p.stdout)
 
 
-def determinism_search(ctx, n_wide, n_front, configs):
+def determinism_search(ctx, n_wide, n_front, n_ct, configs):
     import gen_progs
     progs = corpus_programs()
     ncorpus = len(progs)
@@ -177,6 +182,10 @@ def determinism_search(ctx, n_wide, n_front, configs):
         src, entry, tg = gen_progs.wide(vlib.rng(ctx.seed, f"wide{i}"))
         progs.append({"id": f"wide{i}", "src": src, "entry": entry, "mode": "compile"})
         tags.update(tg)
+    for i in range(n_ct):
+        src, entry, tg = gen_progs.comptime(vlib.rng(ctx.seed, f"ct{i}"))
+        progs.append({"id": f"ct{i}", "src": src, "entry": entry, "mode": "compile"})
+        tags.update("ct-" + t for t in tg)
     for i in range(n_front):
         src, entry, tg = gen_progs.front(vlib.rng(ctx.seed, f"dfront{i}"))
         progs.append({"id": f"dfront{i}", "src": src, "entry": entry, "mode": "compile"})
@@ -216,7 +225,7 @@ def run(ctx):
     if not quick:
         configs += [(4, 500, "lifo"), (5, 77777, None), (6, 100, "fifo"), (7, 9000, ["rand", ctx.seed + 1]),
                     (8, 0, "idx"), (9, 40000, None), (10, 1234, ["rand", ctx.seed + 2])]
-    search = determinism_search(ctx, 40 if quick else 200, 30 if quick else 150, configs)
+    search = determinism_search(ctx, 40 if quick else 200, 30 if quick else 150, 25 if quick else 150, configs)
 
     # whole-compiler inventory: reported, not part of the tie
     try:
